@@ -1263,6 +1263,14 @@ Definition slot_get (sl : nat) : M (option nat) := s <- get ;; ret (mjoin (dep_s
 Definition slot_set (sl : nat) (v : option nat) : M unit :=
   modify (fun s => s <| dep_slots := <[sl := v]> (dep_slots s ++ replicate (S sl - length (dep_slots s)) None) |>).
 
+(* set_max_height_allowed (state.rs:449) *)
+Definition set_max_height_allowed (new_max : Z) : M unit :=
+  st <- gets st_status ;;
+  match st with
+  | Stabilising => panic PSetMaxDuringStabilise
+  | _ => ahh_set_max_height_allowed new_max ;;; rch_set_max_height_allowed new_max
+  end.
+
 Definition run_effect (fuel : nat) (arg : val) (e : effect) : M unit :=
   match e with
   | EDropVar x => with_var_handle x (drop_var_handle x)
@@ -1309,6 +1317,7 @@ Definition run_effect (fuel : nat) (arg : val) (e : effect) : M unit :=
                                        | None => ret tt end)
   | EMakeStale e => with_handle e expert_make_stale
   | EInvalidateExpert e => with_handle e (expert_invalidate fuel)
+  | ESetMaxHeight n => set_max_height_allowed n
   | EStabilise => st <- gets st_status ;;
                   match st with NotStabilising => panic (PModelGap 10) | _ => panic PNestedStabilise end
   | EPanic => panic PInjected
